@@ -194,7 +194,8 @@ Proof.
   destruct (tsimple s te st) as [[[[te1 st1] r1] f1]|] eqn:T1; [|discriminate].
   destruct (tsimple s ge gst) as [[[[ge1 gst1] g1] gf]|] eqn:T2; [|inversion H].
   inversion H; subst. clear H.
-  match goal with HF : _ && _ = true |- _ => apply andb_true_iff in HF; destruct HF as [-> SR] end.
+  match goal with HF : _ && _ = true |- _ =>
+    apply andb_true_iff in HF; destruct HF as [HF2 SR]; apply andb_true_iff in HF2; destruct HF2 as [-> _] end.
   assert (T2' : tstep s ge gst = Some (ge', gst', g1, true)) by (rewrite tstep_simple by exact Hs; exact T2).
   destruct (sim_simple s Hs _ _ _ _ _ _ _ _ _ _ T2' W R U Hr) as (S1 & RA & U1).
   pose proof (tframe_simple s Hs _ _ _ _ _ _ T2' W) as (W1 & _).
@@ -405,4 +406,15 @@ Lemma def_time_global_refuted :
   python_call_outputs w_def_prefix [n_q] [SObs (OLen n_s)] [SAssign n_s (EStr [97;98;99;100;101;102])] [VInt 0] [] = Some ([], [VInt 6]) /\
   def_ok w_def_prefix [n_q] [SObs (OLen n_s)] [SAssign n_s (EStr [97;98;99;100;101;102])] = false /\
   def_ok w_def_prefix [n_q] [SObs (OLen n_s)] [] = true.
+Proof. vm_compute. repeat split; reflexivity. Qed.
+
+(* len(name) inside a right-hand side is a fold site of the flow guard: after a branch that re-assigns s the
+   transpiler's environment still gives len(s) = 2, the ghost environment leaves it to run time *)
+Definition w_rhs_len (branch : list stmt) : list stmt :=
+  [ SAssign n_s (EStr [97;98]); SIf branch [];
+    SAssign n_q (EBin Add (ECall n_len [EName n_s] []) (EInt 1)); SObs (OVal n_q) ].
+Lemma rhs_len_fold_site :
+  flow_ok (w_rhs_len [SAssign n_s (EStr [97;98;99;100])]) = false /\
+  flow_ok (w_rhs_len [SAssign n_msg (EStr [97;98;99;100])]) = true /\
+  python_outputs (w_rhs_len [SAssign n_msg (EStr [97;98;99;100])]) [1%nat] = Some [VInt 3].
 Proof. vm_compute. repeat split; reflexivity. Qed.
